@@ -81,7 +81,7 @@ func cbType(n string) reflect.Type {
 func init() { register("C12", checkC12) }
 
 func checkC12(c *Ctx) error {
-	c.ruleText = "CallBinding.tla: signatures with 0..MaxFixed fixed parameters of {string, int, bool, interface{}} x (no / trailing options map) x (no / struct-typed / interface-typed helper context) x 6 result shapes, and variadic signatures (...string, ...interface{}) x 2 result shapes; calls with 0..MaxArgs arguments of {string, int, bool, nil, hash literal} x with / without block (MaxFixed=1, MaxArgs=3 quick: 62k cells; MaxFixed=2, MaxArgs=4 thorough). TLC checks Agree (transcription of evalCallExpression's binding = declarative expectation on every determined cell). Real code: the signature is built with reflect.MakeFunc as a recorder; every argument is a probe call; compared: invoked or not, every received argument (value, zero value, supplied empty map, helper context with HasBlock and the block's rendering), probes evaluated once and left to right, rendered value, error wrapping for failing error results. distinct_nontrivial = distinct (signature, call) cells with a determined expectation."
+	c.ruleText = "CallBinding.tla: signatures with 0..MaxFixed fixed parameters of {string, int, bool, interface{}} x (no / trailing options map) x (no / struct-typed / interface-typed helper context) x 6 result shapes, and variadic signatures (...string, ...interface{}) x 2 result shapes; calls with 0..MaxArgs arguments of {string, int, bool, nil, hash literal} x with / without block (MaxFixed=1, MaxArgs=3 quick: 62k cells; MaxFixed=2, MaxArgs=3 thorough: 1.28M cells; four arguments exhausted the model checker's memory once three more argument kinds were added). TLC checks Agree (transcription of evalCallExpression's binding = declarative expectation on every determined cell). Real code: the signature is built with reflect.MakeFunc as a recorder; every argument is a probe call; compared: invoked or not, every received argument (value, zero value, supplied empty map, helper context with HasBlock and the block's rendering), probes evaluated once and left to right, rendered value, error wrapping for failing error results. distinct_nontrivial = distinct (signature, call) cells with a determined expectation."
 	c.Assume("a call that omits an ordinary (non-map, non-context) parameter is unspecified and only checked for totality")
 	run := func(raw json.RawMessage) { c12Run(c, raw) }
 	if c.ReplayPath != "" {
